@@ -79,6 +79,22 @@ def guard(where: str, fn, *a, **kw):
         raise Guarded(where, e) from None
 
 
+def collecting(fn):
+    """Decorator for clause functions `fn(out, ...)`: clauses found before the code under test raised are
+    kept, and the exception itself becomes one more clause `raises_<where>_<ExcType>`."""
+
+    def wrapper(*a, **kw):
+        out = []
+        try:
+            fn(out, *a, **kw)
+        except Guarded as g:
+            out.append((f"raises_{g.where}_{type(g.exc).__name__}", str(g)))
+        return out
+
+    wrapper.__name__ = getattr(fn, "__name__", "clauses")
+    return wrapper
+
+
 def exc_sig(e: BaseException) -> str:
     return type(e).__name__
 
